@@ -40,7 +40,8 @@ func ens_maskBytes(pos int, b []byte, ret0 int) bool { return ret0 == (pos+len(b
 
 // the reader side of a connection as newConnBRW builds it
 func spec_wfReader(c *Conn) bool {
-	return c.br != nil && c.readRemaining >= 0 && c.readLength >= 0 && c.handlePing != nil && c.handlePong != nil && c.handleClose != nil
+	return c.br != nil && c.readRemaining >= 0 && c.readLength >= 0 && c.handlePing != nil && c.handlePong != nil && c.handleClose != nil &&
+		(c.readLimit <= 0 || c.readLength <= c.readLimit) // maintained by NextReader (reset) and advanceFrame (this check)
 }
 
 //@ requires (*Conn).handleProtocolError
